@@ -56,6 +56,8 @@ def shrink_disagreement(spec, case):
 def main(spec, tier, seed):
     t0 = time.time()
     pid = spec.pid
+    import glob
+    for f in glob.glob(os.path.join(core.ROOT, "replays", f"{pid}-*")): os.remove(f)
     violations = []      # (replay_path, suffix)
     notes = []
     # 1. build
